@@ -6,6 +6,7 @@ CONSTANTS
   MaxSteps = 8
   Variant = "tmplNeverRefreshed"
   WithSv = FALSE
+  Stamps = "now"
   SvMode = "asWritten"
 INVARIANT TypeOK
 INVARIANT Coherent
